@@ -76,7 +76,14 @@ class Env(object):
             id = PrimaryKey(int)
             q = Optional(Q)
             v = Required(int)
-        self.P, self.C, self.Q, self.I, self.T, self.O = P, C, Q, I, T, O
+        # part 3 schema (tied to Model/CollRead.lean): many-to-many without batch prefetching on Set.load
+        class QQ(db.Entity):
+            id = PrimaryKey(int)
+            tags = Set('TT', nplus1_threshold=None)
+        class TT(db.Entity):
+            id = PrimaryKey(int)
+            qs = Set(QQ, nplus1_threshold=None)
+        self.P, self.C, self.Q, self.I, self.T, self.O, self.QQ, self.TT = P, C, Q, I, T, O, QQ, TT
         @db.on_connect(provider='sqlite')
         def fast(db, connection):
             connection.execute('PRAGMA synchronous = OFF')
@@ -620,6 +627,133 @@ def part2(ctx, env, history=None):
         run_script(gen_script(), 'part2')
 
 
+# ---------------------------------------------------------------- part 3: many-to-many read set (tie + oracle)
+
+M2M_IDS = [1, 2, 3]
+
+
+def part3(ctx, env, history=None):
+    """reader operations on a many-to-many pair (iteration, len, load, explicit prefetch of either side) with a writer that
+    inserts / deletes link rows between them, against Model/CollRead.lean: result and the SetData of every collection of both
+    sides after every operation.  Oracle: a fully loaded collection that was observed repeats or the history raises.
+    The history ends at the first UnrepeatableReadError (the order in which one failing batch treats its objects is not modelled)."""
+    QQ, TT, w, rng = env.QQ, env.TT, env.w, ctx.rng
+    tabs = [r[0] for r in w.execute("SELECT name FROM sqlite_master WHERE type='table'")]
+    link = [t for t in tabs if t.upper() in ('QQ_TT', 'TT_QQ')][0]
+    cols = [r[1] for r in w.execute('PRAGMA table_info(%s)' % link)]
+    qc = [c for c in cols if c.lower().startswith('q')][0]; tc = [c for c in cols if c.lower().startswith('t')][0]
+    def reset(links):
+        w.execute('BEGIN')
+        w.execute('DELETE FROM %s' % link); w.execute('DELETE FROM QQ'); w.execute('DELETE FROM TT')
+        for i in M2M_IDS: w.execute('INSERT INTO QQ (id) VALUES (?)', (i,)); w.execute('INSERT INTO TT (id) VALUES (?)', (i,))
+        for q, t in links: w.execute('INSERT INTO %s (%s, %s) VALUES (?, ?)' % (link, qc, tc), (q, t))
+        w.execute('COMMIT')
+    def table():
+        return [list(r) for r in w.execute('SELECT %s, %s FROM %s ORDER BY %s, %s' % (qc, tc, link, qc, tc)).fetchall()]
+    def snap(qs, ts):
+        out = []
+        for side, objs, attr in ((False, qs, QQ.tags), (True, ts, TT.qs)):
+            for o in M2M_IDS:
+                sd = objs[o]._vals_.get(attr)
+                if sd is not None:
+                    out.append({'side': side, 'o': o, 'items': sorted(x._pkval_ for x in sd), 'full': bool(sd.is_fully_loaded), 'count': sd.count})
+        return out
+    def run_history(case):
+        reset(case['links'])
+        real = []
+        with db_session:
+            qs = {i: QQ[i] for i in M2M_IDS}; ts = {i: TT[i] for i in M2M_IDS}
+            for st in case['steps']:
+                for wop in st['w']:
+                    if wop[0] == 'add': w.execute('INSERT OR IGNORE INTO %s (%s, %s) VALUES (?, ?)' % (link, qc, tc), (wop[1], wop[2]))
+                    else: w.execute('DELETE FROM %s WHERE %s = ? AND %s = ?' % (link, qc, tc), (wop[1], wop[2]))
+                db = table(); op = st['op']; side = op['side']
+                objs = ts if side else qs; attr = 'qs' if side else 'tags'
+                try:
+                    if op['k'] == 'load': getattr(objs[op['o']], attr).load(); res = {'ok': True}
+                    elif op['k'] == 'iter': res = {'items': sorted(x._pkval_ for x in getattr(objs[op['o']], attr))}
+                    elif op['k'] == 'len': res = {'num': len(getattr(objs[op['o']], attr))}
+                    else:
+                        ent = TT if side else QQ; ids = op['objs']; nonce = -next(env.nonce)
+                        select(x for x in ent if x.id in ids and x.id != nonce).prefetch(getattr(ent, attr))[:]
+                        res = {'ok': True}
+                except core.UnrepeatableReadError as e:
+                    res = {'err': 'UnrepeatableReadError', 'msg': str(e)[:100]}
+                real.append({'w': st['w'], 'op': op, 'db': db, 'res': res, 'snap': snap(qs, ts)})
+                if 'err' in res: break
+            rollback()
+        return real
+    def oracle3(real):
+        first = {}; bad = []
+        for i, r in enumerate(real):
+            op, res = r['op'], r['res']
+            if op['k'] not in ('iter', 'len') or 'err' in res: continue
+            key = (op['side'], op['o'])
+            obs = {'len': res['num']} if op['k'] == 'len' else {'items': res['items'], 'len': len(res['items'])}
+            f = first.setdefault(key, {'step': i})
+            for k, v in obs.items():
+                if k in f and f[k] != v: bad.append({'step': i, 'op': op, 'kind': 'm2m-collection-changed:' + k, 'first_step': f['step'], 'first': f[k], 'got': v})
+                f.setdefault(k, v)
+        return bad
+    def gen():
+        links = sorted(set((rng.choice(M2M_IDS), rng.choice(M2M_IDS)) for _ in range(rng.choice([0, 1, 2, 3, 4]))))
+        hot = [(rng.random() < 0.5, rng.choice(M2M_IDS)) for _ in range(rng.choice([1, 2]))]
+        steps = []
+        for _ in range(rng.choice([2, 3, 4, 6, 8])):
+            wops = []
+            if rng.random() < 0.5:
+                for _ in range(rng.choice([1, 1, 2])):
+                    wops.append([rng.choice(['add', 'add', 'del']), rng.choice(M2M_IDS), rng.choice(M2M_IDS)])
+            side, o = rng.choice(hot) if rng.random() < 0.7 else (rng.random() < 0.5, rng.choice(M2M_IDS))
+            r = rng.random()
+            if r < 0.3: op = {'k': 'iter', 'side': side, 'o': o}
+            elif r < 0.55: op = {'k': 'len', 'side': side, 'o': o}
+            elif r < 0.65: op = {'k': 'load', 'side': side, 'o': o}
+            else: op = {'k': 'prefetch', 'side': side, 'objs': sorted(rng.sample(M2M_IDS, rng.choice([1, 2, 3])))}
+            steps.append({'w': wops, 'op': op})
+        return {'links': links, 'steps': steps}
+    cases = []
+    if history is not None: cases.append(history)
+    # fixed: every observation x every foreign change x every reload path of either side (regressions of 0192669 included)
+    for ob in ({'k': 'iter', 'side': False, 'o': 1}, {'k': 'len', 'side': False, 'o': 1}, {'k': 'iter', 'side': True, 'o': 2}):
+        for ch in (['add', 1, 3], ['del', 1, 2], ['add', 3, 2], ['del', 1, 1]):
+            for rl in ({'k': 'prefetch', 'side': False, 'objs': [1, 2, 3]}, {'k': 'prefetch', 'side': False, 'objs': [1]}, {'k': 'prefetch', 'side': True, 'objs': [1, 2, 3]},
+                       {'k': 'iter', 'side': True, 'o': 3}, {'k': 'iter', 'side': True, 'o': 2}, {'k': 'len', 'side': False, 'o': 3}, {'k': 'load', 'side': False, 'o': 1}):
+                cases.append({'links': [[1, 1], [1, 2], [2, 2]], 'steps': [{'w': [], 'op': ob}, {'w': [ch], 'op': rl}, {'w': [], 'op': ob}]})
+    cases += [gen() for _ in range(ctx.scale(400, 8000))]
+    reals = []
+    for case in cases:
+        try: reals.append(run_history(case))
+        except Exception:
+            ctx.divergence('part 3: the real run did not complete', case, impl=traceback.format_exc()[-500:]); reals.append(None)
+    reqs = [{'op': 'm2m', 'addChecks': True, 'prefetchChecks': True, 'loadSkipsFull': True, 'ids': M2M_IDS,
+             'steps': [{'db': r['db'], 'op': r['op']} for r in real]} for real in reals if real is not None]
+    mouts = iter(ctx.driver('C21', reqs) if ctx.driver.ok else [])
+    for case, real in zip(cases, reals):
+        if real is None: continue
+        executed = {'links': case['links'], 'steps': [{'w': r['w'], 'op': r['op']} for r in real]}
+        ctx.case({'m2m': executed}, nontrivial=len(real) >= 2, kind='m2m')
+        for r in real: ctx.count('m2m:%s:%s' % (r['op']['k'], r['res'].get('err', 'ok')))
+        bad = oracle3(real)
+        if bad:
+            ctx.violation('a fully loaded many-to-many collection that was observed changed without an error', {'m2m': executed}, observed=bad[0],
+                          expected='the items observed first, or UnrepeatableReadError', key=bad[0]['kind'])
+        if ctx.driver.ok:
+            mout = next(mouts)
+            if 'steps' not in mout:
+                ctx.divergence('m2m model: driver error', {'m2m': executed}, model=mout); continue
+            for i, (r, m) in enumerate(zip(real, mout['steps'])):
+                mres = dict(m['res'])
+                if 'items' in mres: mres['items'] = sorted(mres['items'])
+                rres = {k: v for k, v in r['res'].items() if k != 'msg'}
+                if mres != rres:
+                    ctx.divergence('m2m model and real Pony disagree: result of step %d (%s)' % (i, r['op']['k']), {'m2m': executed}, model=mres, impl=rres); break
+                if 'err' in rres: break
+                msnap = [dict(x, items=sorted(x['items'])) for x in m['snap']]
+                if msnap != r['snap']:
+                    ctx.divergence('m2m model and real Pony disagree: collections after step %d (%s)' % (i, r['op']['k']), {'m2m': executed}, model=msnap, impl=r['snap']); break
+
+
 # ---------------------------------------------------------------- entry points
 
 def run(ctx, extra=None):
@@ -642,7 +776,10 @@ def run(ctx, extra=None):
             run_cases(ctx, env, [gen_case(ctx.rng) for _ in range(min(1000, n - chunk))], 'random')
         t1 = time.time()
         part2(ctx, env, history=(extra or {}).get('history') if isinstance(extra, dict) else None)
-        ctx.extra['part_seconds'] = {'tie+oracle': round(t1 - t0, 1), 'oracle-only (m2m, 1:1, prefetch)': round(time.time() - t1, 1)}
+        t2 = time.time()
+        part3(ctx, env, history=(extra or {}).get('m2m') if isinstance(extra, dict) else None)
+        ctx.extra['part_seconds'] = {'tie+oracle': round(t1 - t0, 1), 'oracle-only (1:1, default prefetching, mixed)': round(t2 - t1, 1),
+                                     'many-to-many tie+oracle': round(time.time() - t2, 1)}
     finally:
         env.close()
 
@@ -651,4 +788,4 @@ def replay(ctx, data):
     inp = data.get('input') if isinstance(data, dict) else None
     if not inp and isinstance(data, dict) and data.get('divergences'):
         inp = data['divergences'][0].get('input')
-    run(ctx, extra=inp if isinstance(inp, dict) and ('steps' in inp or 'history' in inp) else None)
+    run(ctx, extra=inp if isinstance(inp, dict) and ('steps' in inp or 'history' in inp or 'm2m' in inp) else None)
